@@ -520,3 +520,25 @@ def k12_matcher(ctx):
 
 
 RULES.append(('K12', k12_matcher))
+
+
+def k13_exact_names(ctx):
+    """K13 a unit is found by its name as written: the conversion code compares unit names by equality only (Vec::contains,
+    ==). A prefix / suffix / substring test makes `mile` find `m` (the first unit of the family one of whose names starts the
+    word) and converts into the wrong unit instead of refusing."""
+    ctx.rule('K13', 'unit names are compared by equality only', floor=1)
+    n = 0
+    for b in ctx.facts.src_bodies():
+        if not re.search(r'^(<)?compiler::dynamic_type::|^compiler::dynamic_type::', b.path) and not (b.rec.get('parent') or '').startswith('compiler::dynamic_type::'):
+            continue
+        n += 1
+        ctx.fn(b)
+        for bid, t in b.calls(r'str::<impl str>::(starts_with|ends_with|contains|find|rfind|strip_prefix|strip_suffix|matches|eq_ignore_ascii_case)$|str::pattern'):
+            ctx.finding('K13', '%s/loose-name-test/%s' % (fn_key(b.path), t['callee']['path'].rsplit('::', 1)[-1]), '%s tests a unit name with %s: units are found by equality of names only (a prefix or substring test finds the wrong unit for a longer word)' % (fn_key(b.path), t['callee']['path'].rsplit('::', 1)[-1]), site=t['loc'])
+    if n == 0:
+        raise AnchorLost('no body of compiler::dynamic_type found')
+    if not any(f['rule'] == 'K13' for f in ctx.findings):
+        ctx.ok('K13', '%d bodies of the unit conversion: no prefix / suffix / substring test on names' % n, 'who-may-call', site='src/compiler/dynamic_type.rs')
+
+
+RULES.append(('K13', k13_exact_names))
